@@ -195,7 +195,14 @@ def main(argv):
                     break
 
                 def cmpq(name, got, want, k):
-                    if got is None or want is None or k is None:
+                    if k is None:
+                        return
+                    if got is None or want is None or got != got or want != want:
+                        # a result that comes back empty (femmcli prints nothing for NaN) is not "equal by default"
+                        ck.violation("nan-solution:m:axi:microns" if (kind == "m" and axi is True and unit == "microns") else
+                                     "result-missing:%s:%s:%s" % (kind, mode, name.split("[")[0]),
+                                     "%s comes back as %r in %s and %r in metres" % (name, got, unit, want),
+                                     dict(physics=kind, mode=mode, unit=unit, quantity=name, files=r["run"].files()))
                         return
                     stats["quantities_compared"] += 1
                     exp = want * sfac ** k
@@ -210,7 +217,7 @@ def main(argv):
                     stats["worst_relative_deviation"] = max(stats["worst_relative_deviation"], dev)
                     # potentials are reproduced to 1e-6 of their scale (the solvers' convergence); a field is their difference quotient over
                     # an element (L/h ~ 30-100 times less accurate)
-                    if dev > (1e-5 if name.startswith("field") else 1e-6):
+                    if not (dev <= (1e-5 if name.startswith("field") else 1e-6)):
                         ck.violation("nan-solution:m:axi:microns" if (kind == "m" and axi is True and unit == "microns") else
                                      "scaling:%s:%s:%s" % (kind, mode, name.split("[")[0]),
                                      "%s in %s is %.9g, the scaling law (x s^%s, s=%g) from the metres run gives %.9g" % (name, unit, got, k, sfac, exp),
@@ -221,7 +228,7 @@ def main(argv):
                 worst = max(abs(n[2] - v * sfac ** law["value"]) for n, v in zip(r["sol"]["nodes"], vals_ref)) / (ref_scale["nodal"] * sfac ** law["value"])
                 stats["quantities_compared"] += 1
                 stats["worst_relative_deviation"] = max(stats["worst_relative_deviation"], worst)
-                if worst > 1e-6:
+                if not (worst <= 1e-6):
                     ck.violation("nan-solution:m:axi:microns" if (kind == "m" and axi is True and unit == "microns") else
                                  "scaling:%s:%s:nodal" % (kind, mode), "nodal values in %s deviate from the scaling law (x s^%d) by %.3g" % (unit, law["value"], worst),
                                  dict(physics=kind, mode=mode, unit=unit, files=r["run"].files()))
